@@ -1,0 +1,13 @@
+//go:build verif
+
+package metrics
+
+// VerifResetTaskNum empties the per-state task sets of TaskNumVec, as a process start does
+// (a harness that restarts the server inside one process calls it at the restart).
+func VerifResetTaskNum() {
+	TaskNumVec.numLock.Lock()
+	defer TaskNumVec.numLock.Unlock()
+	TaskNumVec.initialTaskMap = make(map[string]struct{})
+	TaskNumVec.runningTaskMap = make(map[string]struct{})
+	TaskNumVec.pauseTaskMap = make(map[string]struct{})
+}
